@@ -307,4 +307,7 @@ def run(ctx, led):
              "both watchers", u4, ctx)
     run_rule(led, "U5", "kernel predicate TABLES: negation, constructor → variant, post_predicate → "
              "mutator, add_clause negates every literal", u5, ctx)
+    from . import C07
+    run_rule(led, "U6", "SWAP-REMOVE-SKIP and nogood deletion discipline in the kernel the verdicts rely on (shared with C13-F1b / C07-J1)", shared.swap_remove_skip, ctx)
+    run_rule(led, "U7", "a learned nogood is deleted only if it is not the reason of a trail entry (shared with C07-J1)", C07.j1, ctx)
     run_rule(led, "U5b", "posting is total: a predicate is skipped only when it already holds", u5b, ctx)
